@@ -72,6 +72,14 @@ def frag_set_case(rng):
                                 'C{a}c1ccccc1C(:O):O']).format(a=d(), b=d())
         feats.add('explicit_aromatic_bond_between_upper_case_atoms')
         nd += 1
+    if not coarse and rng.random() < 0.1:
+        # charged aromatic atoms without hydrogen at a fragment border (pyridinium, pyrylium, thiopyrylium, N-oxide cut
+        # through the ring): the charge is part of the atom however few of its ring bonds lie inside the fragment
+        d = lambda: M.fmt_desc(rng.choice(['$', '<', '>']), rng.choice(C13.LABELS), 1)
+        frs['T8'] = rng.choice(['C[n+]({a})c{b}', '[n+]{a}(C)ccc{b}', 'c{a}[o+]c{b}', 'c{a}c[s+]c{b}', 'C[n+]1{a}ccccc1', '[O-][n+]({a})c{b}',
+                                '{a}c[n+](CC)c{b}']).format(a=d(), b=d())
+        feats.add('charged_aromatic_atom_at_fragment_border')
+        nd += 1
     return dict(kind='fragset', coarse=coarse, string='{' + ','.join('#%s=%s' % kv for kv in frs.items()) + '}',
                 features=sorted(feats), ndesc=nd)
 
@@ -109,6 +117,13 @@ def cases(seed, tier, shard, nshards):
             continue
         made += 1
         yield c
+        if made % 400 == 0:
+            # N-alkylpyridinium / pyrylium mapped to three beads: a complete string whose ring is closed by descriptors only
+            het = rng.choice(['[n+]', '[o+]', '[s+]'])
+            lab = rng.choice(['', 'r', 'a1'])
+            pya = ('C[n+]([<%s])' % lab if het == '[n+]' else het + '[<%s]' % lab) + 'c[>%s]' % lab
+            yield dict(kind='complete', string='{[#PYA]1[#PYB][#PYB]1}.{#PYA=%s,#PYB=[<%s]cc[>%s]}' % (pya, lab, lab),
+                       coarse_last=False, features=['complete_charged_aromatic_ring_over_three_beads'], nheavy=7)
 
 
 def frag_equal(a, b, coarse):
